@@ -150,7 +150,7 @@ TEXTS = (("0-based _", lambda seq: basis_text(seq)),
 def command_line(cmd, text):
     """The command as a user runs it: a new process, permuta.cli.main with sys.argv."""
     return subprocess.Popen([sys.executable, "-c", "import sys; from permuta.cli import main; sys.argv[0] = 'permtools'; main()", cmd, text],
-                            stdout=subprocess.PIPE, stderr=subprocess.PIPE, text=True)
+                            stdout=subprocess.PIPE, stderr=subprocess.PIPE, text=True, env=util.hash_env(13))
 
 
 def cli_poly(seq):
@@ -917,7 +917,7 @@ def cold_start(rnd, quick, fillers):
                 order = [f for f in order if f in AVM] if first in AVM else []
             if order:
                 argv = [sys.executable, "-c", COLD, json.dumps([list(p) for p in B]), json.dumps(order), via]
-                out.append((B, via, subprocess.Popen(argv, stdout=subprocess.PIPE, stderr=subprocess.PIPE, text=True)))
+                out.append((B, via, subprocess.Popen(argv, stdout=subprocess.PIPE, stderr=subprocess.PIPE, text=True, env=util.hash_env(130 + len(out)))))
     return out
 
 
